@@ -289,6 +289,20 @@ func (r *simRun) execOps(ops []term.T, self, primary key.TargetID) {
 			if eng.IsValid(id) {
 				r.rev[id] = term.Bool(a[1])
 			}
+		case "SHeal":
+			targets := []key.TargetID{}
+			for _, t := range term.List(a[0]) {
+				if id := r.resolve(t, self, primary); eng.IsValid(id) {
+					targets = append(targets, id)
+				}
+			}
+			eng.Heal(info.Heal{
+				Key:       "h",
+				Targets:   targets,
+				Source:    self,
+				BaseHeal:  info.HealMap{},
+				HealValue: term.Float(a[1]),
+			})
 		case "SSample":
 			r.rec(term.C("VSample", idsTerm(eng.Characters()), idsTerm(eng.Enemies()), idsTerm(r.sim.Turn.TurnOrder())))
 		default:
